@@ -73,7 +73,7 @@ func TestC06(t *testing.T) {
 	if Tier() == "thorough" {
 		childEvery = 1
 	}
-	search(t, rec, "differential", budget(60, 3200), 0, func(rt *rapid.T) {
+	search(t, rec, "differential", budget(60, 16000), 0, func(rt *rapid.T) {
 		n++
 		b, panicMsg := buildHistory(rt, true)
 		defer b.c.Close()
